@@ -78,13 +78,11 @@ class C07(c01.C01):
         try:
             with contextlib.redirect_stdout(io.StringIO()):
                 b.model.main()
-        except LogicError:
-            outcome = 'LogicError'
         except Exception as e:
-            outcome = type(e).__name__ + ': ' + str(e)[:120]
+            outcome = type(e).__name__          # LogicError today; "refused with an error" = any exception
         rec.count('refusal.judged')
         n_series = len(b.model.EquationSolver.TimeSeries)
-        if outcome != 'LogicError' or n_series != 0:
+        if outcome == 'returned' or n_series != 0:
             rec.violate('cross_currency_flow_without_external_sector_not_refused',
                         {'outcome': outcome, 'n_series': n_series, 'gifts': spec['gifts'], 'imports': spec['imports']})
         return {'verdict': 'violated' if rec.violations else 'held', 'nontrivial': True,
